@@ -3487,6 +3487,7 @@ def cpuid(_, instr):
 
 
 def bittest_get(ir, instr, src, index):
+    index_is_imm = index.is_int()
     index = index.zeroExtend(src.size)
     if isinstance(src, m2_expr.ExprMem):
         b_mask = {16: 4, 32: 5, 64: 6}
@@ -3499,8 +3500,20 @@ def bittest_get(ir, instr, src, index):
         off_bit = index.zeroExtend(
             src.size) & m2_expr.ExprInt((1 << b_mask[src.size]) - 1,
                                         src.size)
-        off_byte = ((index.zeroExtend(ptr.size) >> m2_expr.ExprInt(3, ptr.size)) &
-                    m2_expr.ExprInt(((1 << src.size) - 1) ^ b_decal[src.size], ptr.size))
+        if index_is_imm:
+            # An immediate bit offset is taken modulo the operand size
+            off_byte = m2_expr.ExprInt(0, ptr.size)
+        else:
+            # A register bit offset is a signed integer added to the bit base
+            # (sign extension written without a condition: both branches of a condition are
+            # evaluated, memory reads included, by the symbolic execution engine)
+            if index.size >= ptr.size:
+                s_index = index[:ptr.size]
+            else:
+                sign = m2_expr.ExprInt(1 << (index.size - 1), ptr.size)
+                s_index = (index.zeroExtend(ptr.size) ^ sign) - sign
+            off_byte = (m2_expr.ExprOp("a>>", s_index, m2_expr.ExprInt(3, ptr.size)) &
+                        m2_expr.ExprInt(((1 << ptr.size) - 1) ^ b_decal[src.size], ptr.size))
 
         addr = ptr + off_byte
         if segm:
@@ -3516,7 +3529,6 @@ def bittest_get(ir, instr, src, index):
 
 def bt(ir, instr, src, index):
     e = []
-    index = index.zeroExtend(src.size)
     d, off_bit = bittest_get(ir, instr, src, index)
     d = d >> off_bit
     e.append(m2_expr.ExprAssign(cf, d[:1]))
